@@ -20,14 +20,81 @@ TIMEOUT = {"quick": 900, "thorough": 7000}
 
 def cases(tier, seed):
     n = 192 if tier == "quick" else 48000
-    return [{"seed": seed, "idx": i} for i in range(n)]
+    out = [{"seed": seed, "idx": i} for i in range(n)]
+    # the same statement through the configuration-driven interface: a tower moved by whole cells (its local coordinates edited, the way
+    # a user moves a mast in a sweep) moves the footprint by the same cells
+    out += [{"seed": seed, "idx": i, "kind": "iface", "_cost": 3} for i in range(12 if tier == "quick" else 600)]
+    return out
 
 
 def shift_draw(rng, n):
     return int(rng.choice([0, 1, -1, n - 1, n // 2, int(rng.integers(-2 * n, 2 * n))]))
 
 
+def iface_case(case):
+    import copy
+    import math
+    import warnings
+
+    import numpy as np
+    import bldfm
+    from bldfm.config_parser import parse_config_dict
+    from vlib import gen
+
+    rng = gen.rng_for(case["seed"], "C06i", case["idx"])
+    nx, ny = int(rng.integers(6, 15)) * 2, int(rng.integers(6, 15)) * 2
+    zm = float(rng.uniform(3.0, 10.0))
+    dx, dy = float(zm * rng.uniform(1.5, 3.0)), float(zm * rng.uniform(1.5, 3.0))
+    xmax, ymax = nx * dx, ny * dy
+    with_origin = bool(rng.random() < 0.7)
+    ref_lat, ref_lon = float(rng.uniform(-60, 60)), float(rng.uniform(-170, 170))
+    R = 6_371_000.0
+    i0, j0 = int(rng.integers(nx)), int(rng.integers(ny))
+    x0, y0 = i0 * dx, j0 * dy
+    prec = str(rng.choice(["double", "single"]))
+    dom = {"nx": nx, "ny": ny, "xmax": xmax, "ymax": ymax, "nz": int(rng.integers(4, 10)), "halo": 0.0, "modes": [nx, ny]}
+    if with_origin:
+        dom.update(ref_lat=ref_lat, ref_lon=ref_lon)
+    raw = {"domain": dom,
+           "towers": [{"name": "mast", "lat": ref_lat + math.degrees(y0 / R), "lon": ref_lon + math.degrees(x0 / (R * math.cos(math.radians(ref_lat)))), "z_m": zm}],
+           "met": {"ustar": float(rng.uniform(0.25, 0.5)), "mol": float(rng.choice([-1, 1]) * 10 ** rng.uniform(1.7, 3)), "wind_speed": float(rng.uniform(2, 6)),
+                   "wind_dir": float(rng.uniform(0, 360))},
+           "solver": {"closure": str(rng.choice(["MOST", "MOSTM", "CONSTANT"])), "footprint": True, "precision": prec}}
+    cfg = parse_config_dict(raw)
+    tw = cfg.towers[0]
+    if not with_origin:
+        tw.x, tw.y = x0, y0
+    viol, resid = [], {}
+    warnings.simplefilter("ignore")
+    with np.errstate(all="ignore"):
+        # put the mast exactly on the node (the lat/lon round trip leaves it within nanometres of it) and take the reference footprint
+        tw.x, tw.y = x0, y0
+        f0 = np.asarray(bldfm.run_bldfm_single(cfg, tw)["flx"], dtype=float)
+        sx, sy = shift_draw(rng, nx), shift_draw(rng, ny)
+        i1, j1 = (i0 + sx) % nx, (j0 + sy) % ny
+        tw.x, tw.y = i1 * dx, j1 * dy
+        # every other case runs the moved mast through the series / multi-tower driver
+        if case["idx"] % 2:
+            f1 = np.asarray(bldfm.run_bldfm_multitower(cfg)["mast"][0]["flx"], dtype=float)
+            driver = "run_bldfm_multitower"
+        else:
+            f1 = np.asarray(bldfm.run_bldfm_single(cfg, tw)["flx"], dtype=float)
+            driver = "run_bldfm_single"
+    exp = np.roll(f0, (j1 - j0, i1 - i0), axis=(0, 1))
+    tol = 1e-9 if prec == "double" else 5e-5
+    e = float(np.max(np.abs(f1 - exp))) / (float(np.max(np.abs(exp))) or 1.0) if f1.shape == exp.shape and np.all(np.isfinite(f1)) else float("inf")
+    resid[f"tower_translation_interface_{prec}"] = e
+    if not e <= tol:
+        viol.append({"what": "tower_translation", "through": driver, "rel": e, "from_cell": (i0, j0), "to_cell": (i1, j1), "reference_origin": with_origin,
+                     "config": raw})
+    return {"evals": 1, "nontrivial": bool((i1, j1) != (i0, j0) and np.ptp(f0) > 0), "sig": f"iface|{case['idx']}", "resid": resid,
+            "buckets": {"iface:tower_moved_by_hand": 1, "iface:with_origin" if with_origin else "iface:without_origin": 1, f"iface:{driver}": 1},
+            "counters": {"interface_runs": 2}, "violations": viol, "sample": {"config": raw, "from_cell": (i0, j0), "to_cell": (i1, j1), "driver": driver}}
+
+
 def run_case(case):
+    if case.get("kind") == "iface":
+        return iface_case(case)
     import numpy as np
     from vlib import gen, solve
 
